@@ -271,15 +271,21 @@ class TD3(RLAlgorithm):
 
         # Optimizers
         self.actor_optimizer = OptimizerWrapper(
-            optim.Adam, networks=self.actor, lr=self.lr_actor
+            optim.Adam, networks=self.actor, lr=self.lr_actor, lr_name="lr_actor"
         )
 
         self.critic_1_optimizer = OptimizerWrapper(
-            optim.Adam, networks=self.critic_1, lr=self.lr_critic
+            optim.Adam,
+            networks=self.critic_1,
+            lr=self.lr_critic,
+            lr_name="lr_critic",
         )
 
         self.critic_2_optimizer = OptimizerWrapper(
-            optim.Adam, networks=self.critic_2, lr=self.lr_critic
+            optim.Adam,
+            networks=self.critic_2,
+            lr=self.lr_critic,
+            lr_name="lr_critic",
         )
 
         if self.accelerator is not None and wrap:
